@@ -103,7 +103,7 @@ def automaton(env, acc, via_dict):
 # ---------------------------------------------------------------------------
 # part B: parameters inside circuits
 # ---------------------------------------------------------------------------
-TEMPLATES = ["bs", "ps", "loss", "bsloss", "group", "herald", "twice", "nested", "pre_herald"]
+TEMPLATES = ["bs", "ps", "loss", "bsloss", "group", "herald", "twice", "nested", "pre_herald", "nonadj"]
 
 
 def make_template(name, p, p2, env):
@@ -128,6 +128,9 @@ def make_template(name, p, p2, env):
         s = lw.Circuit(2); s.bs(0, reflectivity=p); s.ps(0, p2)
         m = lw.Circuit(3); m.add(s, 0, group=True); m.bs(1, 2, reflectivity=p2)
         c = lw.Circuit(4); c.add(m, 1, group=True); c.add(s, 0)
+    elif name == "nonadj":         # non-adjacent beam splitter and swaps: the in-place rewrites have work to do
+        c = lw.Circuit(3); c.mode_swaps({0: 1, 1: 0}); c.bs(2, 0, reflectivity=p, convention="H")
+        c.mode_swaps({1: 2, 2: 1}); c.ps(1, p2); c.mode_swaps({0: 2, 2: 0})
     elif name == "pre_herald":     # parameters already in the host when a heralded sub-circuit is added
         c = lw.Circuit(3); c.bs(0, 1, reflectivity=p); c.ps(2, p2); c.loss(1, p)
         g = lw.Circuit(2); g.bs(0, reflectivity=p2); c.add(g, 1, group=True)
@@ -168,6 +171,10 @@ def ref_template(name, v, v2, env):
         r = RefCircuit(4)
         r.bs(1, 2, v); r.ps(1, v2); r.bs(2, 3, v2)
         r.bs(0, 1, v); r.ps(0, v2)
+    elif name == "nonadj":
+        if not unit(v): return None
+        r = RefCircuit(3); r.swaps({0: 1, 1: 0}); r.bs(2, 0, v, "H"); r.swaps({1: 2, 2: 1}); r.ps(1, v2)
+        r.swaps({0: 2, 2: 0})
     elif name == "pre_herald":
         if not (unit(v) and unit(v2)): return None
         r = RefCircuit(3); r.bs(0, 1, v); r.ps(2, v2); r.loss(1, v); r.bs(1, 2, v2)
@@ -178,7 +185,7 @@ def ref_template(name, v, v2, env):
     return r
 
 
-N_PARAMS = {"bs": 1, "ps": 1, "loss": 1, "bsloss": 1, "group": 2, "herald": 2, "twice": 2, "nested": 2, "pre_herald": 2}
+N_PARAMS = {"bs": 1, "ps": 1, "loss": 1, "bsloss": 1, "group": 2, "herald": 2, "twice": 2, "nested": 2, "pre_herald": 2, "nonadj": 2}
 
 
 class World:
@@ -228,6 +235,16 @@ def apply_b(w, op):
                 fr = src["frozen"] if src["frozen"] is not None else (w.p.get(), w.p2.get())
                 new = {"tmpl": src["tmpl"], "kind": "frozen", "circ": cc, "frozen": fr}
             w.circs = (w.circs + [new])[-2:]
+        elif k == "rewrite":
+            # in-place rewrites of a live circuit: it must keep following its parameters afterwards
+            if not w.circs:
+                raise kernel.Skip()
+            c = w.circs[-1]["circ"]
+            try:
+                {"unpack": c.unpack_groups, "compress": c.compress_mode_swaps,
+                 "remove_nonadj": c.remove_non_adjacent_bs}[op[1]]()
+            except (ValueError, lw.CircuitCompilationError):      # a currently invalid value may be refused
+                return "rejected"
         else:
             raise KeyError(op)
     except PERR:
@@ -281,7 +298,8 @@ def explore_b(env, depth):
     g, g2 = env.R[1], env.L[1]
     alpha = [("set", v) for v in (g, g2, 0, 1, 1.5, -0.2)] + [("set2", v) for v in (env.R2, 1.25)] \
         + [("pdset", g2), ("pdset", 1.5), ("minb", 0), ("maxb", 1), ("maxb", None), ("minb", None)] \
-        + [("make", t) for t in TEMPLATES] + [("copy",), ("freeze",)]
+        + [("make", t) for t in TEMPLATES] + [("copy",), ("freeze",)] \
+        + [("rewrite", r) for r in ("unpack", "compress", "remove_nonadj")]
 
     def build(hist):
         w = World(env)
